@@ -9,7 +9,8 @@ import ast
 from .loader import U
 
 MUTATING = {'append', 'extend', 'insert', 'pop', 'remove', 'sort', 'reverse',
-            'clear', 'update', 'fill', 'setdefault', 'popitem'}
+            'clear', 'update', 'fill', 'setdefault', 'popitem', 'setflags',
+            'resize', 'itemset', 'put', 'partition', 'setfield'}
 
 
 def _self_field(node):
